@@ -6,7 +6,7 @@
 
 use crate::hist::*;
 
-#[derive(Debug, Clone, PartialEq)]
+#[derive(Debug, Clone, PartialEq, serde::Serialize, serde::Deserialize)]
 pub struct MTable {
     /// rows were inserted at some point (tombstones may remain physically)
     pub ever_had_rows: bool,
